@@ -3,6 +3,7 @@ package precompile
 import (
 	"fmt"
 	"math/big"
+	"strings"
 
 	"cosmossdk.io/math"
 	sdk "github.com/cosmos/cosmos-sdk/types"
@@ -816,6 +817,13 @@ func (p precompileFunToken) parseArgsGetErc20Address(args []any) (
 
 		if err = tfDenom.Validate(); err != nil {
 			err = fmt.Errorf("invalid bank denomination format: %w", err)
+			return
+		}
+		// The tf format check looks at the "/"-separated sections only. A denom
+		// with a null character cannot be a key of the FunTokens BankDenom index
+		// (the string key encoder panics on it), so it names no FunToken.
+		if strings.ContainsRune(bankDenom, 0) {
+			err = fmt.Errorf("invalid bank denomination format: null character in %q", bankDenom)
 			return
 		}
 	}
